@@ -726,9 +726,11 @@ def run_history(rnd, cast, ctx, tables, nops, mode, ops=None, kwargs=None, safe_
                 if extra.get("aug_mid") is not None:
                     # `x.f += v`: the in-place dunder went through (validated, stored) and the assignment of its result
                     # -- the value the field itself just stored -- was rejected
-                    reason = nf_reason(fcast, dict(extra["aug_mid"]).get(op["name"]))
-                    if reason != "other":
-                        key = "C03/stored-normal-form-invalid/%s/%s" % (ctag, reason)
+                    b = extra.get("base")
+                    path = collision_path(fcast, b[1] if b and b[0] == "ok" else None,
+                                          dict(extra["aug_mid"]).get(op["name"]), ctx)
+                    if path:
+                        key = "C03/stored-normal-form-invalid/normalised-collision/" + ".".join(path)
                     else:
                         key = "C03/%s.%s/aug-assign/stored-value-rejected-on-reassignment" % (op["kind"], op["method"])
                     what = ("%s: the in-place operator validated and stored %s, then the statement's own assignment of "
@@ -752,6 +754,100 @@ def run_history(rnd, cast, ctx, tables, nops, mode, ops=None, kwargs=None, safe_
     return h
 
 
+def converted(g, x, ctx):
+    """The normal form the item / key field g ALONE stores for x on the real library (reified), or None when g
+    rejects x."""
+    try:
+        T = S.single_field_class(g, ctx)
+        return E.reify(T(f=G.unreify(x, ctx.classes)).f, S.struct_attrs)
+    except Exception:  # noqa
+        return None
+
+
+def _images_collide(g, elems, stored_elems, ctx):
+    """Do the supplied elements, pairwise distinct for Python, coincide after g's conversion -- and is what was stored
+    exactly the set of their images?"""
+    if g is None or len(G.dedup(list(elems))) != len(elems):
+        return False
+    imgs = [converted(g, x, ctx) for x in elems]
+    if any(i is None for i in imgs):
+        return False
+    distinct = G.dedup(imgs)
+    if len(distinct) == len(imgs):
+        return False
+    return sorted(map(repr, map(G.py_key, distinct))) == sorted(map(repr, map(G.py_key, G.dedup(list(stored_elems)))))
+
+
+def collision_path(f, sup, sto, ctx):
+    """Root cause F20 (collection constraints are checked on the supplied elements, the elements are converted
+    afterwards): the path of declaration kinds from the field down to a collection whose supplied elements / keys
+    are distinct but coincide after the item field's conversion (so the STORED collection has duplicates under
+    uniqueItems, or fewer entries than were counted against minItems).  None when there is no such collection: any
+    other invalid stored normal form is a different defect."""
+    if f is None or sup is None or sto is None:
+        return None
+    t = f.get("t")
+    seq = ("list", "deque", "tuple")
+    if t in ("allof", "anyof", "oneof"):
+        for g in f.get("fs") or []:
+            r = collision_path(g, sup, sto, ctx)
+            if r:
+                return [t] + r
+        return None
+    if t in ("seqeach", "seqpos", "tuple"):
+        if sup[0] not in seq or sto[0] not in seq:
+            return None
+        a, b = list(sup[1]), list(sto[1])
+        if len(a) != len(b):
+            return None
+        if t == "seqeach":
+            fs = [f["item"]] * len(a)
+        elif t == "tuple" and len(f["items"]) == 1:
+            fs = [f["items"][0]] * len(a)
+        else:
+            fs = (list(f["items"]) + [None] * len(a))[:len(a)]
+        if f.get("uniq") and len(G.dedup(a)) == len(a) and len(G.dedup(b)) < len(b):
+            imgs = [converted(g, x, ctx) if g is not None else x for g, x in zip(fs, a)]
+            if all(i is not None for i in imgs) and len(G.dedup(imgs)) < len(imgs):
+                return [t + ":uniqueItems"]
+        for g, x, y in zip(fs, a, b):
+            r = collision_path(g, x, y, ctx)
+            if r:
+                return [t] + r
+        return None
+    if t == "set":
+        if sup[0] != "set" or sto[0] != "set":
+            return None
+        if len(sto[2]) < len(sup[2]) and _images_collide(f.get("item"), list(sup[2]), list(sto[2]), ctx):
+            return ["set:size"]
+        return None
+    if t == "mapkv":
+        if sup[0] != "dict" or sto[0] != "dict":
+            return None
+        a, b = list(sup[1]), list(sto[1])
+        if len(b) < len(a):
+            if _images_collide(f["kf"], [k for k, _ in a], [k for k, _ in b], ctx):
+                return ["mapkv:size"]
+            return None
+        if len(a) != len(b):
+            return None
+        for (k1, v1), (k2, v2) in zip(a, b):
+            r = collision_path(f["kf"], k1, k2, ctx) or collision_path(f["vf"], v1, v2, ctx)
+            if r:
+                return [t] + r
+        return None
+    return None
+
+
+def stored_nf_key(ctag, fc, supplied, stored, ctx):
+    """Key of "validation stored a value the declaration does not admit": by ROOT CAUSE where it is the known one
+    (conversion collision, wherever the collection sits), by field kind and symptom otherwise."""
+    path = collision_path(fc, supplied, stored, ctx)
+    if path:
+        return "C03/stored-normal-form-invalid/normalised-collision/" + ".".join(path)
+    return "C03/stored-normal-form-invalid/%s/%s" % (ctag, nf_reason(fc, stored))
+
+
 def nf_reason(f, stored):
     """Why a stored normal form violates its declaration (searched through nested declarations)."""
     if f is None or stored is None:
@@ -768,10 +864,10 @@ def nf_reason(f, stored):
     if items is None:
         return "other"
     if f.get("uniq") and tag in ("list", "deque", "tuple") and len(G.dedup(items)) != len(items):
-        return "duplicates-after-normalisation"
+        return "duplicates-in-stored-value"
     lo = (f.get("sz") or [None, None])[0]
     if lo is not None and tag in ("set", "dict") and len(items) < lo:
-        return "size-after-normalisation"
+        return "stored-size-below-minItems"
     subs = []
     if t in ("seqeach", "set") and f.get("item"):
         subs = [(f["item"], x) for x in items]
@@ -2029,8 +2125,10 @@ def run(rep, tier):
                     ctag = (fc or {}).get("t", "non-field")
                     if s["out"][0] == "ok" and r["nf_bad"].get(hi) == first_coq:
                         # validation itself (Field.__set__ chain) stored a value the declaration does not admit
-                        post = dict(s["post"] or [])
-                        key = "C03/stored-normal-form-invalid/%s/%s" % (ctag, nf_reason(fc, post.get(op["name"])))
+                        post = dict(post_state_at(h, first_coq))
+                        b = s["extra"].get("base")
+                        supplied = op["value"] if op["op"] == "set" else (b[1] if b and b[0] == "ok" else None)
+                        key = stored_nf_key(ctag, fc, supplied, post.get(op["name"]), ctx)
                         what = ("%s passed validation and stored %s, which %s does not admit (the constructor does the "
                                 "same with this value)" % (op_src(op), G.py_src(post[op["name"]]) if op["name"] in post else "?",
                                                             G.field_src(fc)))
